@@ -290,7 +290,11 @@ def run(check, repo, tier):
     for rid, floor in (("R1", 40), ("R2", 100), ("R3", 50), ("R4", 100), ("R6", 500)):
         check.floor(not (counts.get(rid, 0) < floor), f"C07.{rid}: only {counts.get(rid, 0)} obligations decided (floor {floor})")
     n = table_agreement(check, cr.world)
-    check.analysed = dict(cr.stats, table_entries=n)
+    check.rule("R8", "ParamsDict (the remembered-parameters record) behaves as the case-insensitive dict the analysis uses in its place: every method "
+                     "executed from source on symbolic stored values (a stored 0 is a value, not an absent key)")
+    from . import paramsdict
+    n8 = paramsdict.contract(check, cr.program, "R8")
+    check.analysed = dict(cr.stats, table_entries=n, paramsdict_paths=n8)
     check.coverage["exhaustive"] = tier == "thorough"
     check.explanation = (
         "Value-numbered pairing of state stores and delivered words on the abstract paths of every public command: enum slots "
